@@ -46,6 +46,45 @@ ACCEPTED = {
 }
 
 
+def adopted_nodes_are_fresh(eng: Engine) -> Optional[str]:
+    """The table entry above is about *which* nodes `copy_parent.set_children(...)` adopts: only nodes taken from the borrowed node while the
+    bracket is open (what Repetition.fuzz has just created) and nodes of the copy itself.  Returns the offending operand if the argument also
+    contains nodes that were the borrowed node's children before the bracket was opened (they would be re-parented to the copy)."""
+    cls = eng.cls("fandango.constraints.repetition_bounds", "RepetitionBoundsSuggestion")
+    fn = cls.methods.get("_insert_repetitions")
+    if fn is None:
+        return "function not found"
+    calls = [c for c in walk_local(fn.node) if isinstance(c, ast.Call) and isinstance(c.func, ast.Attribute) and c.func.attr == "set_children" and isinstance(c.func.value, ast.Name)]
+    borrowed = None
+    open_line = close_line = None
+    for c in calls:
+        if c.args and isinstance(c.args[0], ast.List) and not c.args[0].elts:
+            borrowed, open_line = c.func.value.id, c.lineno  # type: ignore[union-attr]
+    if borrowed is None:
+        return "bracket not found"
+    for c in calls:
+        if c.func.value.id == borrowed and c.lineno > open_line and c.args and isinstance(c.args[0], ast.Name):  # type: ignore[union-attr]
+            close_line = c.lineno
+    if close_line is None:
+        return "bracket is not closed"
+    for c in calls:
+        recv = c.func.value.id  # type: ignore[union-attr]
+        if recv == borrowed or not c.args:
+            continue
+        for n in ast.walk(c.args[0]):
+            if isinstance(n, ast.Attribute) and isinstance(n.value, ast.Name) and n.value.id == recv:
+                continue
+            if isinstance(n, ast.Name) and isinstance(n.ctx, ast.Load) and n.id != recv:
+                defs = [a for a in walk_local(fn.node) if isinstance(a, ast.Assign) and any(isinstance(t, ast.Name) and t.id == n.id for t in a.targets)]
+                if not defs:
+                    continue  # a parameter / index: not a node list
+                for a in defs:
+                    from_borrowed = isinstance(a.value, ast.Attribute) and isinstance(a.value.value, ast.Name) and a.value.value.id == borrowed and a.value.attr in ("children", "_children")
+                    if from_borrowed and not (open_line < a.lineno < close_line):
+                        return f"`{n.id}` (line {a.lineno}: the children `{borrowed}` had before the bracket was opened)"
+    return None
+
+
 def tree_typed_roots(eng: Engine, fn: FuncInfo, tree_family: set[str]) -> set[str]:
     """'self' if the receiver is a tree / holds trees, plus p:<param> for tree-typed parameters
     (including lists / tuples of trees)."""
@@ -189,6 +228,7 @@ def run(chk: Check, eng: Engine) -> None:
     fam = ea.tree_family
 
     pending: list[dict] = []
+    stale_operand = adopted_nodes_are_fresh(eng)
 
     def report(rule: str, fn: FuncInfo, selfcls: Optional[ClassInfo], roots: set[str], consts: Optional[dict] = None, label: str = "") -> None:
         s = ea.summary(fn, selfcls, consts)
@@ -208,7 +248,7 @@ def run(chk: Check, eng: Engine) -> None:
             accepted = None
             for (hop_fn, afld, marker), why in ACCEPTED.items():
                 if afld == fld and any(h.startswith(hop_fn + ":") and marker in h for h in hops):
-                    if any("is restored at" in b and "_insert_repetitions" in b for b in ea.dropped_brackets):
+                    if any("is restored at" in b and "_insert_repetitions" in b for b in ea.dropped_brackets) and stale_operand is None:
                         accepted = why
             if accepted:
                 chk.ok(rule, fn.fq, fn.line, f"{name}: write of {fld} on {region} accepted - {accepted}", nontrivial=False)
@@ -574,6 +614,8 @@ _MU = "src/fandango/evolution/mutation.py"
 _RB = "src/fandango/constraints/repetition_bounds.py"
 _S = "src/fandango/language/search.py"
 MUTANTS = [
+    M("insert-repair-adopts-the-original-children", _RB, "            copy_children=True,\n            copy_parent=False,\n            copy_params=False,\n        )\n        copy_parent.set_children(\n            copy_parent.children[:insertion_index]\n            + insert_children\n            + copy_parent.children[insertion_index:]\n",
+      "            copy_children=False,\n            copy_parent=False,\n            copy_params=False,\n        )\n        copy_parent.set_children(\n            old_tree_children[:insertion_index]\n            + insert_children\n            + old_tree_children[insertion_index:]\n", "R10-b"),
     M("root-lookup-memoised-by-structure", _T, "    def get_root(self, stop_at_argument_begin: bool = False) -> \"DerivationTree\":\n", "    @functools.lru_cache(maxsize=1024)\n    def get_root(self, stop_at_argument_begin: bool = False) -> \"DerivationTree\":\n", "R10-g"),
     M("nonterminal-hash-without-kind", "src/fandango/language/symbols/non_terminal.py", "        return hash((self._value, self._type))\n", "        return hash(self._value)\n", "R10-f"),
     M("deepcopy-inherits-hash", _T, "        memo[id(self)] = copied\n", "        memo[id(self)] = copied\n        copied.hash_cache = self.hash_cache\n", "R10-c"),
